@@ -1,6 +1,34 @@
-"""Source census: structural facts about /repo that the model assumes,
-regenerated on every run into coq/gen/SourceFacts.v (see DESIGN.md 2.2-2)."""
+"""Source census: structural facts about /repo that the models assume (reads of the
+source only through ReadFull-like helpers; buffer pools the only shared state, Get
+paired with deferred Put; no goroutines), regenerated on every run into
+coq/gen/SourceFacts.v by /verif/go/translator (census mode)."""
+import json
+import os
+
+from . import common as C
+from . import shapes as S
 
 
 def regenerate(st):
+    st["census_ok"] = False
+    ok, msg = S.build_parquetgen()
+    if not ok:
+        st["census_msg"] = "parquetgen does not build: " + msg
+        return
+    d = os.path.join(C.WORK, "census")
+    os.makedirs(d, exist_ok=True)
+    sample = S.flat24()
+    with open(os.path.join(d, "types.go"), "w") as f:
+        f.write(sample.go_source("census"))
+    rc, o, e = C.run([os.path.join(C.BIN, "parquetgen"), "-input", "types.go", "-type", "Root", "-package", "census"], cwd=d, timeout=120)
+    if rc != 0:
+        st["census_msg"] = "parquetgen failed on the census sample: " + (o + e)[-300:]
+        return
+    tmp = os.path.join(C.WORK, "SourceFacts.v.new")
+    rc, o, e = C.run([os.path.join(C.BIN, "translator"), "census", C.REPO, os.path.join(d, "parquet.go"), tmp, os.path.join(d, "census.json")])
+    if rc != 0:
+        st["census_msg"] = "census tool failed: " + (o + e)[-300:]
+        return
+    C.write_if_changed(os.path.join(C.COQ, "gen", "SourceFacts.v"), open(tmp).read())
+    st["census"] = json.load(open(os.path.join(d, "census.json")))
     st["census_ok"] = True
